@@ -256,7 +256,7 @@ fn s03_one<T: Real>(kind: Kind, n: usize, dir: FftDirection, rng: &mut Rng, rep:
                         rep.count("panicked");
                         if well {
                             rep.fail(format!("wellshaped-panicked {}", key), e);
-                        } else if e.contains("unsafe precondition") || e.contains("out of range") || e.contains("index out of bounds") || e.contains("debug_assert") || e.contains("overflow") {
+                        } else if !is_validation_panic(&e) {
                             rep.fail(format!("panic-inside-kernel {}", key), e);
                         }
                     }
